@@ -49,7 +49,7 @@ func s(xs ...string) []string { return xs }
 var ruleSchemas = []kindSchema{
 	{"file", func() aa.Rule { return &aa.File{} }, []fieldChoices{
 		{"Qualifier", qualChoices}, {"Owner", []any{false, true}},
-		{"Path", []any{"/etc/app/conf", "@{HOME}/.config/{a,b}/**", `"/path with blank/x"`, "/usr/lib/@{multiarch}/lib*.so{,.[0-9]*}", "/srv/mes\u00a0docs/**", "/srv/wide\u3000blank/x"}},
+		{"Path", []any{"/etc/app/conf", "@{HOME}/.config/{a,b}/**", `"/path with blank/x"`, "/usr/lib/@{multiarch}/lib*.so{,.[0-9]*}", "/srv/mes\u00a0docs/**", "/srv/wide\u3000blank/x", `/media/alice/USB\ DISK/My Documents/**`}},
 		{"Access", []any{s("r"), s("r", "w"), s("m", "r", "ix"), s("Px"), s("r", "w", "l", "k")}},
 		{"Target", []any{"", "tgtprofile"}}, {"Comment", commentChoices}, {"FileInherit", []any{false, true}}, {"NoNewPrivs", []any{false, true}}, {"Optional", []any{false, true}}}, true},
 	{"link", func() aa.Rule { return &aa.Link{} }, []fieldChoices{
@@ -94,7 +94,7 @@ var ruleSchemas = []kindSchema{
 	{"all", func() aa.Rule { return &aa.All{} }, []fieldChoices{{"Comment", commentChoices}}, false},
 	{"include", func() aa.Rule { return &aa.Include{} }, []fieldChoices{
 		{"IfExists", []any{false, true}}, {"Path", []any{"abstractions/base", "local/x", "/etc/apparmor.d/abs"}}, {"IsMagic", []any{true, false}}}, true},
-	{"comment", func() aa.Rule { return &aa.Comment{} }, []fieldChoices{{"Comment", []any{" just a comment", " another, with a comma"}}}, true},
+	{"comment", func() aa.Rule { return &aa.Comment{} }, []fieldChoices{{"Comment", []any{" just a comment", " another, with a comma", "included by the parent profile", "abi and alias, profile x {", "aa:"}}}, true},
 }
 
 func schemaOf(kind string) *kindSchema {
@@ -384,7 +384,23 @@ func roundTrip(id string, rules aa.Rules, format bool) map[string]any {
 		if format {
 			rules = rules.Merge().Sort().Format()
 		}
-		rec["rule"] = absWithComment(rules)
+		// what must come back: the rules as given, a path or target that holds a blank in its written (quoted) form
+		want := aa.Rules{}
+		for _, x := range rules {
+			switch f := x.(type) {
+			case *aa.File:
+				c := *f
+				c.Path, c.Target = refQuote(c.Path), refQuote(c.Target)
+				want = append(want, &c)
+			case *aa.Link:
+				c := *f
+				c.Path, c.Target = refQuote(c.Path), refQuote(c.Target)
+				want = append(want, &c)
+			default:
+				want = append(want, x)
+			}
+		}
+		rec["rule"] = absWithComment(want)
 		aa.IndentationLevel = 1
 		text1 := rules.String()
 		rec["text1"] = text1
@@ -530,6 +546,18 @@ func checkC09(e *Env, r *Report) {
 		}
 		return
 	}
+	// C09 takes a path in its written form: one that holds a blank comes quoted (as the parser delivers it); the
+	// unquoted form only exists in rules built from logs and is C12's business (the printer must quote it)
+	{
+		kept := gen[:0:0]
+		for _, g := range gen {
+			if f, isFile := g.Rule.(*aa.File); isFile && strings.ContainsAny(f.Path, " ") && !strings.HasPrefix(f.Path, `"`) {
+				continue
+			}
+			kept = append(kept, g)
+		}
+		gen = kept
+	}
 	rng := rand.New(rand.NewSource(e.Seed))
 	rng.Shuffle(len(gen), func(i, j int) { gen[i], gen[j] = gen[j], gen[i] })
 	recs := []any{}
@@ -600,7 +628,8 @@ func fileRoundTrip(rng *rand.Rand, n int) map[string]any {
 	for i := 0; i < nPre; i++ {
 		switch rng.Intn(5) {
 		case 0:
-			f.Preamble = append(f.Preamble, &aa.Comment{Base: aa.Base{Comment: fmt.Sprintf(" c%d", i), IsLineRule: true}})
+			// (also comments written without a blank after the '#', whose first word looks like a keyword)
+			f.Preamble = append(f.Preamble, &aa.Comment{Base: aa.Base{Comment: []string{fmt.Sprintf(" c%d", i), fmt.Sprintf("included by c%d", i), fmt.Sprintf("abi c%d", i), fmt.Sprintf(" c%d", i)}[rng.Intn(4)], IsLineRule: true}})
 			desc = append(desc, "cmt")
 		case 1:
 			inc := &aa.Include{Path: fmt.Sprintf("tunables/v%d", i), IsMagic: true, IfExists: rng.Intn(2) == 0}
@@ -626,7 +655,8 @@ func fileRoundTrip(rng *rand.Rand, n int) map[string]any {
 			desc = append(desc, "alias")
 		}
 	}
-	h := aa.Header{Name: "vgen-prof", Attachments: [][]string{{}, {"@{exec_path}"}, {"/usr/bin/a", "/usr/bin/{b,c}"}, {"@{bin}/x", "/opt/y", "@{lib}/z"}}[rng.Intn(4)],
+	h := aa.Header{Name: "vgen-prof", Attachments: [][]string{{}, {"@{exec_path}"}, {"/usr/bin/a", "/usr/bin/{b,c}"}, {"@{bin}/x", "/opt/y", "@{lib}/z"},
+		{`"/opt/My App/bin/run"`, "/usr/bin/foo"}, {`"/opt/My {App,Tool}/bin/run"`, "/usr/bin/foo"}, {"/usr/bin/foo", `"/opt/a b/{c,d e}/{ f}"`}}[rng.Intn(7)],
 		Flags: [][]string{{}, {"complain"}, {"attach_disconnected", "mediate_deleted"}, {"attach_disconnected", "complain", "mediate_deleted"}}[rng.Intn(4)]}
 	switch rng.Intn(3) {
 	case 1:
@@ -1247,6 +1277,36 @@ func checkC12(e *Env, r *Report) {
 		classOf[id] = "log|" + t.Cls + "|" + diagClass(got.Diag)
 		recs = append(recs, map[string]any{"ev": "meaning", "id": id, "text": body, "reftext": "", "accepted": got.OK, "diag": got.Diag, "refaccepted": false, "samepolicy": false})
 		nLog++
+	}
+	// network records: family, socket type and protocol number of the record against the rule written by hand
+	// from the family and the type (a protocol name is only another way to name a type: tcp = stream, icmp = raw)
+	ni := 0
+	for _, fam := range []string{"inet", "inet6"} {
+		for _, st := range []string{"stream", "dgram", "raw"} {
+			for _, proto := range []int{0, 1, 6, 17, 58} {
+				ni++
+				line := fmt.Sprintf(`type=AVC msg=audit(1.1:%d): apparmor="ALLOWED" operation="create" class="net" profile="netprof" pid=1 comm="c" family="%s" sock_type="%s" protocol=%d requested_mask="create" denied_mask="create"`, ni, fam, st, proto)
+				var body string
+				func() {
+					defer func() { _ = recover() }()
+					for _, p := range logs.New(strings.NewReader(line+"\n"), "").ParseToProfiles() {
+						p.Merge(nil)
+						p.Sort()
+						p.Format()
+						aa.IndentationLevel = 1
+						body = p.Rules.String()
+						aa.IndentationLevel = 0
+					}
+				}()
+				ref := fmt.Sprintf("  network %s %s,\n", fam, st)
+				got := compileStub(dir, fmt.Sprintf("n%d", ni), body)
+				want := compileStub(dir, fmt.Sprintf("nr%d", ni), ref)
+				id := fmt.Sprintf("log:net|%s|%s|%d", fam, st, proto)
+				classOf[id] = "log|net|" + diagClass(got.Diag)
+				recs = append(recs, map[string]any{"ev": "meaning", "id": id, "text": body, "reftext": ref, "accepted": got.OK, "diag": got.Diag, "refaccepted": want.OK, "samepolicy": want.OK && got.OK && want.Bin == got.Bin})
+				nLog++
+			}
+		}
 	}
 	r.Coverage["rules_from_logs"] = nLog
 	// the real aa-log binary in rules mode: every profile block it prints for a log must load, and
